@@ -268,6 +268,33 @@ def check_units(ctx, out):
     out.inst("C01.units", n, 5, note="range bounds / clamps that involve character indices of the intra-line diff")
 
 
+def check_output_writeonly(ctx, out, rule="C01.writeonly"):
+    """While a file's diff is scanned, the list of line changes built so far is an output: the diff parser appends
+    to it and never reads it back to decide anything. What has to be remembered from one diff line to the next
+    (the previous line's kind, the pending deletions) is explicit scan state, reset where the scan says so; a
+    decision taken from `line_changes.last()` / `.len()` / an index depends on a change recorded arbitrarily
+    far above - another hunk, another part of the file - instead."""
+    n = 0
+    READ = r"<impl \[T\]>::(last|first|last_mut|first_mut|len|is_empty|iter|iter_mut|get|get_mut|contains|ends_with|starts_with|binary_search\w*|windows|split_last|split_first)$|vec::Vec::<T, A>::(len|is_empty|pop|last|iter|truncate|retain|drain|remove|dedup\w*)$|ops::Index<.*>>?::index$|ops::IndexMut<.*>>?::index_mut$|IntoIterator>?::into_iter$"
+    for b in diff_bodies(ctx):
+        if b.promoted is not None:
+            continue
+        # the function that returns the list may hand it on (`into_iter().collect()`, a final sort): only the
+        # bodies that take part in the scan - they have a loop over hunks / lines or are called from one - are judged
+        for bi, t in b.calls():
+            a0 = (t.get("arg_tys") or [""])[0]
+            if not re.match(r"&(mut )?(std::vec::Vec<blockwatch::diff_parser::LineChange>|\[blockwatch::diff_parser::LineChange\])$", a0):
+                continue
+            nm = callee_name(t)
+            if re.search(r"vec::Vec::<T, A>::(push|extend|extend_from_slice|append|reserve|with_capacity)$|Extend<.*>>?::extend$|Deref(Mut)?>?::deref(_mut)?$", nm):
+                n += 1
+                continue
+            if re.search(READ, nm):
+                out.viol(rule, "%s|%s|%s" % (rule, b.id, nm.split("::")[-1]), ctx.where(b, t["span"]),
+                         "the diff parser reads the list of line changes it is building (`%s`): a decision made from what was recorded earlier - possibly in another hunk, arbitrarily far above - instead of from the scan's own state (previous line, pending deletions)" % nm.split("::")[-1])
+    out.inst(rule, n, 2, note="appends to the line-change list in the diff parser; reads of it must be 0")
+
+
 def _span_monotone(ctx):
     from rules.C02 import span_verdict
     return span_verdict(ctx) is True and ctx.__dict__.get("_span_monotone") is True
@@ -628,6 +655,7 @@ def run(ctx, out, tier):
     check_inclusive(ctx, out, rule="C01.incl")
     from rules.C02 import _span
     _span(ctx, out, "C01.span")
+    check_output_writeonly(ctx, out)
     check_linekind(ctx, out)
     return meta()
 
